@@ -40,6 +40,25 @@ func main() {
 		os.Exit(runWorker(os.Args[2:]))
 	case "replay":
 		os.Exit(runReplay(os.Args[2:]))
+	case "witnesses":
+		// run every pinned witness verbosely (maintenance aid)
+		ids := make([]string, 0, len(mon.Registry))
+		for id := range mon.Registry {
+			ids = append(ids, id)
+		}
+		sort.Strings(ids)
+		for _, id := range ids {
+			for _, fam := range mon.Registry[id].Families {
+				if fam.Name != "witness" {
+					continue
+				}
+				for i := 0; i < fam.N("quick"); i++ {
+					rep := mon.NewReport()
+					fmt.Printf("%s witness %d\n", id, i)
+					fam.Run(&mon.Case{Prop: id, Family: "witness", Index: i, Seed: 1, Tier: "quick", Rep: rep, Replay: true})
+				}
+			}
+		}
 	case "list":
 		ids := make([]string, 0, len(mon.Registry))
 		for id := range mon.Registry {
